@@ -239,17 +239,28 @@ def check(ck):
     fdi = prog.func(SRV, DISP + "._dispatch")
     g = cfg_of(fdi)
     func_calls = {}
-    for n in g.live_nodes():
-        for c in node_calls(n):
-            if isinstance(c.func, ast.Name):
-                t = prov.origin(g, n, c.func)
-                if any((a[0] == "item" and q.self_attr(a[1], "funcs")) or
-                       (a[0] == "call" and a[1] == ("global", "resolve_dotted_attribute")) for a in prov.alts(t)):
-                    func_calls[n.id] = c
+    invs = common.callable_invocations(prog)
+    for (n, c, helper, hc) in invs:
+        if helper is None:
+            func_calls[n.id] = c
+        else:
+            func_calls[n.id] = c
+            hg = cfg_of(helper)
+            star = [a for a in hc.args if isinstance(a, ast.Starred)]
+            dstar = [k for k in hc.keywords if k.arg is None]
+            hparams = [p for p in helper.params if p != "self"]
+            passed = [prov.origin(hg, [x for x in hg.live_nodes() if hc in node_calls(x)][0], (star[0].value if star else dstar[0].value))] if (star or dstar) else []
+            okh = len(hc.args) + len(hc.keywords) == 1 and passed and passed[0][0] == "param" and passed[0][1] in hparams
+            ck.require(bool(okh), "C01.3", "%s: `%s` in helper %s" % (q.fn(fdi), dump(hc)[:50], helper.qual), "func(*params) / func(**params) unchanged",
+                       "the registered callable is invoked through %s as `%s`: the request's params are not passed on unchanged" % (helper.qual, dump(hc)[:70]),
+                       q.loc(helper, hc))
     if len(func_calls) < 2:
         raise AnalysisError("anchor vanished: calls of the looked-up callable in _dispatch")
     dd2 = dominators(g)
+    direct_ids = set(n.id for (n, c, helper, hc) in invs if helper is None)
     for nid, c in func_calls.items():
+        if nid not in direct_ids:
+            continue
         n = g.nodes[nid]
         star = [a for a in c.args if isinstance(a, ast.Starred)]
         dstar = [k for k in c.keywords if k.arg is None]
